@@ -65,7 +65,10 @@ SortedEvents(S, t) ==
            m  == CHOOSE l \in S : \A o \in S : ev[l][1] < ev[o][1] \/ (ev[l][1] = ev[o][1] /\ l <= o)
        IN <<ev[m]>> \o SortedEvents(S \ {m}, t)
 
-Patterns == [init : {-1, 1}, flips : {F \in SUBSET (1..Horizon) : Cardinality(F) <= MaxFlips}]
+\* subsets of at most k elements, built constructively (filtering SUBSET (1..Horizon) enumerates 2^Horizon sets)
+RECURSIVE UpTo(_, _)
+UpTo(S, n) == IF n = 0 THEN {{}} ELSE LET smaller == UpTo(S, n - 1) IN smaller \cup {F \cup {x} : F \in smaller, x \in S}
+Patterns == [init : {-1, 1}, flips : UpTo(1..Horizon, MaxFlips)]
 
 Init ==
   /\ pat \in [L -> Patterns]
